@@ -109,3 +109,71 @@ class Reduce(Family):
 
     def nontrivial(self, case):
         return 0 in case["lengths"]
+
+
+@register
+class ReductionWrapper(Family):
+    """the `reduction` decorator and the named reductions: axis=None reduces the flat data with the numpy function of
+    the same name, keepdims returns the same numbers as a column, other axes are refused, and each named reduction is
+    the reduce method of its ufunc along the last axis"""
+    name = "raggedarray.reduction wrapper + named reductions"
+    qualname = "npstructures.raggedarray:reduction"
+    serves = ["C05"]
+    assumed = ["numpy dispatch protocol: ufunc.reduce(ragged, axis) calls RaggedArray.__array_ufunc__(ufunc, 'reduce', ...)"]
+
+    def kinds(self):
+        return ["sum", "prod", "all", "any", "max", "min", "table"]
+
+    def run(self, ctx, kind):
+        import npstructures.raggedarray as ramod
+        from npstructures import arrayfunctions as af
+        if kind == "table":
+            ok = all(af.HANDLED_FUNCTIONS[getattr(np, name)].__name__ == "<lambda>" for name in ("sum", "all", "any", "max", "min", "prod", "mean", "argmax", "argmin", "cumsum", "nonzero"))
+            want = {np.add: "sum", np.logical_and: "all", np.logical_or: "any", np.maximum: "max", np.minimum: "min", np.multiply: "prod"}
+            ctx.prove("post.REDUCTIONS maps each ufunc to the method of the matching name", z3.BoolVal(dict(af.REDUCTIONS) == want and ok))
+
+            class Probe:
+                def __getattr__(s, name):
+                    return lambda *a, **k: ("CALLED", name, a, k)
+            res = {name: af.HANDLED_FUNCTIONS[getattr(np, name)](Probe(), axis=-1) for name in ("sum", "all", "any", "max", "min", "prod", "mean")}
+            ctx.prove("post.np.<name>(ra, ...) calls ra.<name>(...) with the same arguments",
+                      z3.BoolVal(all(v == ("CALLED", k, (), {"axis": -1}) for k, v in res.items())))
+            return
+        g = sym_ragged(ctx, kind="elem")
+        ra = g.ra
+        want_ufunc = {"sum": "add", "prod": "multiply", "all": "logical_and", "any": "logical_or", "max": "maximum", "min": "minimum"}[kind]
+        rec = []
+        n = g.n
+        col = SymArr.symbolic("rowres", n, "elem", np.int64, assume_len=False)
+        old = ramod.RaggedArray.__dict__["_reduce"]
+        ramod.RaggedArray._reduce = lambda self_, ufunc, ra_, axis=0, **kw: rec.append((ufunc.__name__, ra_, axis, kw)) or col
+        try:
+            out = getattr(ra, kind)(axis=-1)
+            out_k = getattr(ra, kind)(axis=-1, keepdims=True)
+            out_2 = getattr(ra, kind)(axis=7)
+        finally:
+            ramod.RaggedArray._reduce = old
+        ctx.prove("post.axis=-1: the ufunc's reduce over the rows of this array", z3.BoolVal(
+            out is col and len(rec) == 2 and all(r[0] == want_ufunc and r[1] is ra and r[2] in (-1, 1) for r in rec)))
+        t = z3.Int("t")
+        ctx.skolem(z3.And(0 <= t, t < n))
+        ctx.prove("post.keepdims: the same numbers as an (n, 1) column", z3.And(z3.BoolVal(out_k.ndim == 2), dim_term(out_k.shape_[0]) == n,
+                                                                                z3.BoolVal(out_k.shape_[1] == 1), out_k.get(t, 0) == col.fn(t)))
+        ctx.prove("post.unsupported axis refused", z3.BoolVal(out_2 is NotImplemented))
+        # axis=None: the numpy function of the same name on the flat data
+        from ..sym import symnp
+        seen = []
+        real = getattr(symnp.SymNumpy, kind, None)
+
+        class Res:
+            def item(s):
+                return "SCALAR"
+        setattr(symnp.SymNumpy, kind, lambda self_, x, *a, **k: seen.append(x) or Res())
+        try:
+            out_n = getattr(ra, kind)()
+        finally:
+            if real is None:
+                delattr(symnp.SymNumpy, kind)
+            else:
+                setattr(symnp.SymNumpy, kind, real)
+        ctx.prove("post.axis=None: np.<name> of all elements, as a scalar", z3.BoolVal(out_n == "SCALAR" and len(seen) == 1 and seen[0] is g.D))
